@@ -106,6 +106,93 @@ def handmade():
     ]
 
 
+def directed_program(k, first, late, outer, root_blocking, late_from_child, a_blocking, late_main, stall_ms):
+    """Directed family for the atomicity of TerminateGuard::set_err (one critical section for
+    precedence check + ctx.cancel() + store).  The scenario root spawns k held tasks, registers a
+    hook on ctx.canceled() and spawns task A, which fails first.  ctx.cancel() inside A's set_err
+    calls the hook synchronously: it releases the held tasks, which fail strictly after A while A
+    is still inside set_err, and stalls A's thread.  Returns (tasks, id of A, id of the scenario scope)."""
+    T = lambda scope, main, blocking, acts: {"scope": scope, "main": main, "blocking": blocking, "acts": acts}
+    tasks = []
+    if outer:
+        tasks.append(T(0, True, root_blocking, [["nested", 1, False]]))
+    R = len(tasks)
+    tasks.append(T(R, True, root_blocking, []))
+    racts = tasks[R]["acts"]
+    for _ in range(k):
+        b = len(tasks)
+        tasks.append(T(R, late_main, True, [["held"]]))
+        racts.append(["spawn", b])
+        if late_from_child:
+            r = len(tasks)
+            tasks.append(T(r, True, True, [["fail", 100 + r]] if late == "err" else [["panic"]]))
+            tasks[b]["acts"].append(["nested", r, False])
+        else:
+            tasks[b]["acts"].append(["fail", 100 + b] if late == "err" else ["panic"])
+    racts.append(["hook", k, stall_ms])
+    a = len(tasks)
+    tasks.append(T(R, True, a_blocking, [["fail", 100 + a]] if first == "err" else [["panic"]]))
+    racts.append(["spawn", a])
+    racts.append(["await"])
+    return tasks, a, R
+
+
+def directed_cases(rng, nseeds):
+    """(first failure, late failures) x k in {1,4,16} with the other switches cycled."""
+    out = []
+    i = 0
+    for (first, late) in (("err", "err"), ("panic", "err"), ("err", "panic")):
+        for k in (1, 4, 16):
+            outer = i % 2 == 1
+            root_blocking = i % 3 == 2
+            late_from_child = i % 4 == 3
+            a_blocking = i % 5 != 4
+            late_main = i % 3 != 1
+            tasks, a, R = directed_program(k, first, late, outer, root_blocking, late_from_child, a_blocking, late_main, 120)
+            expect = [2, 0] if "panic" in (first, late) else [1, 100 + a]
+            c = make_case(rng, tasks, nseeds, True)
+            c["ext_after"] = -1
+            c["stall_ms"] = 1500
+            c["directed"] = {"first_task": a, "scope": R, "expect": expect, "k": k, "first": first, "late": late,
+                             "outer": outer, "root_blocking": root_blocking, "late_from_child": late_from_child}
+            out.append(c)
+            i += 1
+    # the two decisive combinations once more with every switch on
+    for (first, late) in (("err", "err"), ("panic", "err")):
+        tasks, a, R = directed_program(4, first, late, True, True, True, True, True, 120)
+        c = make_case(rng, tasks, nseeds, True)
+        c["ext_after"] = -1
+        c["stall_ms"] = 1500
+        c["directed"] = {"first_task": a, "scope": R, "expect": [2, 0] if first == "panic" else [1, 100 + a], "k": 4,
+                         "first": first, "late": late, "outer": True, "root_blocking": True, "late_from_child": True}
+        out.append(c)
+    return out
+
+
+def directed_predicate(case, run):
+    """Oracle of the directed family, on the implementation's output alone: the held tasks failed
+    strictly after the first task (they were released from inside its set_err), so the scope must
+    report the first task's failure (an error is replaced only by a panic, a panic by nothing)."""
+    d = case["directed"]
+    bad = []
+    log = run["log"]
+    if run["hang"]:
+        return bad
+    ret = [ev for ev in log if ev[0] == 7 and ev[1] == d["scope"]]
+    end_first = next((i for i, ev in enumerate(log) if ev[0] == 6 and ev[1] == d["first_task"]), None)
+    hook = next((i for i, ev in enumerate(log) if ev[0] == 9), None)
+    if end_first is None or hook is None or not ret:
+        return bad
+    late_before = [ev for i, ev in enumerate(log) if ev[0] == 6 and ev[2] != 0 and ev[1] != d["first_task"] and i < end_first]
+    if late_before or hook < end_first:
+        return bad  # the forced order did not materialise (e.g. external cancellation fired the hook)
+    got = [ret[0][2], ret[0][3]]
+    if got != d["expect"]:
+        bad.append(f"set_err is not atomic: task {d['first_task']} failed first ({d['first']}), the {d['k']} other tasks failed strictly after it "
+                   f"(released from inside its set_err), but scope {d['scope']} returned {got} instead of {d['expect']}")
+    return bad
+
+
 # ----------------------------------------------------------------------------------------------
 # static analysis used only to decide whether a stall before the external cancellation is legitimate
 
@@ -122,7 +209,7 @@ def analysis(tasks):
         memo_nb[t] = False
         ok = True
         for a in tasks[t]["acts"]:
-            if a[0] == "await":
+            if a[0] in ("await", "held"):
                 ok = False
             elif a[0] == "join" and not nonblocking(a[1]):
                 ok = False
@@ -139,7 +226,7 @@ def analysis(tasks):
             acts = tasks[q]["acts"]
             for i, a in enumerate(acts):
                 if a[0] == "spawn" and a[1] == t:
-                    if any(b[0] in ("await", "join", "nested") for b in acts[:i]):
+                    if any(b[0] in ("await", "held", "join", "nested") for b in acts[:i]):
                         return False
                     return surely_spawned(q, r)
         return False
@@ -286,7 +373,7 @@ def coq_act(a):
         return f"ASpawn {a[1]}"
     if k == "nested":
         return f"ANested {a[1]} {coq_bool(a[2])}"
-    if k == "await":
+    if k in ("await", "held"):
         return "AAwaitCancel"
     if k == "join":
         return f"AJoin {a[1]}"
@@ -299,7 +386,7 @@ def coq_act(a):
 
 def coq_prog(tasks):
     return coq_list(["{| td_scope := %d; td_main := %s; td_acts := %s |}" % (
-        td["scope"], coq_bool(td["main"]), coq_list([coq_act(a) for a in td["acts"]])) for td in tasks])
+        td["scope"], coq_bool(td["main"]), coq_list([coq_act(a) for a in td["acts"] if a[0] != "hook"])) for td in tasks])
 
 
 def coq_res(k, e):
@@ -337,7 +424,7 @@ def winners(tasks, log):
 
 
 def coq_case(tasks, run):
-    log = [ev for ev in run["log"] if ev[0] != 0]
+    log = [ev for ev in run["log"] if ev[0] not in (0, 9)]
     win = "(" + coq_list([f"({r}%nat, {t}%nat)" for (r, t) in winners(tasks, log)]) + " : list (nat * nat))"
     return f"({coq_prog(tasks)}, {win}, {coq_list([coq_event(e) for e in log])})"
 
@@ -386,7 +473,8 @@ def run(rep):
         nprog, nseeds, max_tasks, max_depth = 1500, 60, 40, 4
     if os.environ.get("C17_NPROG"):  # self-test knob: fewer programs, same generators
         nprog = int(os.environ["C17_NPROG"])
-    cases = []
+    cases = directed_cases(rng, 3 if tier == "quick" else 8)
+    n_directed = len(cases)
     for tasks in handmade():
         cases.append(make_case(rng, tasks, nseeds, analysis(tasks)))
     cp = os.path.join(common.CORPUS, "C17.json")
@@ -407,7 +495,7 @@ def run(rep):
     coq_cases, meta, pred_fail = [], [], []
     seen = {}
     act_hist, ev_hist = {}, {}
-    n_runs = n_stall = n_ext = 0
+    n_runs = n_stall = n_ext = n_directed_runs = 0
     confirmations = {"yes": 0, "runs": 0}
     crashed = False
     res_hist = {"ok": 0, "err": 0, "panic": 0, "hang": 0}
@@ -433,6 +521,9 @@ def run(rep):
             for ev in r["log"]:
                 ev_hist[ev[0]] = ev_hist.get(ev[0], 0) + 1
             bad = predicates(c["tasks"], r, c["selfterm"])
+            if "directed" in c:
+                n_directed_runs += 1
+                bad = directed_predicate(c, r) + bad
             if bad and r["stall"] and c["selfterm"] and len(bad) == 1 and not r["hang"]:
                 # a stall verdict depends on wall-clock time: confirm it with a long threshold
                 if confirmations["yes"] < 2:
@@ -443,7 +534,8 @@ def run(rep):
                     confirmations["runs"] += 1
             if bad:
                 pred_fail.append({"tasks": c["tasks"], "seed": c["seeds"][si], "ext_after": c["ext_after"],
-                                  "log": r["log"], "res": r["res"], "failed": bad[0], "more": bad[1:4]})
+                                  "log": r["log"], "res": r["res"], "failed": bad[0], "more": bad[1:4],
+                                  "directed": c.get("directed")})
             key = (ci, json.dumps(r["log"]), tuple(r["res"]))
             if key in seen:
                 continue
@@ -472,13 +564,13 @@ def run(rep):
                        "broken": broken})
     elif broken:
         rep.violation("C17 no longer shown to hold: " + "; ".join(broken)[:500], {"broken": broken}, found_input=False)
-    names = {0: "start", 1: "spawn", 2: "nested", 3: "observed_cancel", 4: "join", 5: "cancel", 6: "end", 7: "ret", 8: "ext"}
+    names = {9: "hook", 0: "start", 1: "spawn", 2: "nested", 3: "observed_cancel", 4: "join", 5: "cancel", 6: "end", 7: "ret", 8: "ext"}
     cov.update({
         "obligations": po["obligations"] + 1,
         "discharged": po["discharged"] + (0 if mm else 1),
         "checker_cmd": "make -C coq theories/Properties/C17.vo + coqc on generated build/cases/C17/cases_*.v (vm_compute of Model.Scope.run_case = trace acceptance)",
         "trusted_base": common.standard_trusted_base([
-            "H-ATOM: Arc strong-count updates, Weak::upgrade, the std Mutex section of set_err, Semaphore::close and tokio JoinHandle completion are atomic steps of the model; must_complete::Guard (process abort) is not modelled",
+            "H-ATOM: Arc strong-count updates, Weak::upgrade, the std Mutex section of set_err, Semaphore::close and tokio JoinHandle completion are atomic steps of the model (the atomicity of set_err is additionally checked on the code by the directed hook family, see directed_family); must_complete::Guard (process abort) is not modelled",
             "the event log is appended under one mutex; an event is logged before the call for cancel()/nested run!/end of body and after the call for spawn/await/join/return, so that replaying hidden steps as early as possible over-approximates what the implementation may have done",
             "tokio multi-thread runtime, blocking pool, ManualClock (deadline fired by advancing the clock)"]),
         "theorems": po["theorems"], "axioms": po["axioms"],
@@ -486,6 +578,8 @@ def run(rep):
         "distinct_nontrivial": len(coq_cases),
         "rule": "random task trees (tasks main/background x async/blocking, spawn, nested scopes with and without deadline context, await-cancel, join, s.cancel(), fail, panic) each run under several seeded perturbation schedules (yield / 40-260us sleeps before every action) on a 4-worker tokio runtime; external cancellation of the caller's context after a random number of events or on stall; non-trivial+distinct = distinct (program, event log, result) triples, each replayed by the model in Coq",
         "programs": len(cases), "schedules_per_program": nseeds,
+        "directed_family": {"programs": n_directed, "runs": n_directed_runs,
+                            "what": "the model's LSetErr step is atomic (H-ATOM: precedence check + ctx.cancel() + store in one critical section of State::err). This family is what checks that atomicity on the code: a std::task::Wake hook registered on ctx.canceled() runs synchronously inside the first failing task's set_err -> ctx.cancel(), releases k in {1,4,16} parked tasks that fail (Err / panic / Err from a child scope) strictly after it and stalls the cancelling thread 120 ms; oracle: run!/run_blocking! (plain and nested) reports the first failure (Err(first) resp. the panic), checked by a python predicate and by the model replay"},
         "input_distribution": {"programs": stats, "actions": act_hist, "events": {names[k]: v for k, v in sorted(ev_hist.items())},
                                "results": res_hist, "runs_with_external_cancel": n_ext, "runs_stalled_before_external_cancel": n_stall,
                                "tasks_per_program_max": max(len(c["tasks"]) for c in cases)},
@@ -513,7 +607,8 @@ def replay(path):
     print("re-run res   :", r["res"], "stall" if r["stall"] else "", "hang" if r["hang"] else "")
     st = analysis(fi["tasks"])
     for name, run_ in (("recorded", {"log": fi["log"], "res": fi["res"], "stall": "progress" in fi["failed"], "hang": "did not return" in fi["failed"]}), ("re-run", r)):
-        print(name, "predicates:", predicates(fi["tasks"], run_, st))
+        extra = directed_predicate({"directed": fi["directed"]}, run_) if fi.get("directed") else []
+        print(name, "predicates:", extra + predicates(fi["tasks"], run_, st))
     cc = [(0, coq_case(fi["tasks"], {"log": fi["log"], "res": fi["res"]}), common.to_obsv(expected_obs({"log": fi["log"], "res": fi["res"]}))),
           (1, coq_case(fi["tasks"], r), common.to_obsv(expected_obs(r)))]
     mm, samp = common.run_model_cases("C17replay", "From EC Require Import Model.Scope.", "Model.Scope.run_case", cc, sample_ids=[0, 1])
